@@ -80,7 +80,7 @@ for pid in sorted(os.listdir(SEEDED)):
         patch = os.path.join(d, m, "patch.diff")
         if os.path.exists(patch):
             q.put((pid, m, patch))
-ths = [threading.Thread(target=worker, args=(i, q)) for i in range(3)]
+ths = [threading.Thread(target=worker, args=(i, q)) for i in range(int(os.environ.get("VERIF_MATRIX_WORKERS", "3")))]
 for t in ths:
     t.start()
 for t in ths:
